@@ -5,6 +5,7 @@ from .streamlib import select
 def _c(fn, *a, **k): return select(fn(*a, **k), "C16")
 def cases(tier): return [Case(c[0], _c, *c[1:]) for c in P.all_cases(tier)]
 ASSUMPTIONS = ["producer holds valid and its token until accepted",
-               "headers aligned to the data width (unaligned Packetizer/Depacketizer residue handling is tier 2 and not covered)",
+               "unaligned headers: raw packets offered to the Depacketizer are at least as long as their header (no last flag on a full header word); the don't-care bytes of a flush beat are not constrained",
+               "header_words >= 1 (a header shorter than one data word is a listed finding)",
                "header definitions, data widths and port counts from a grid; all field values, payloads, schedules and mid-packet selector changes symbolic",
                "the Packetizer->Depacketizer round trip follows from the two layout contracts (both are proved against the same header layout spec function) and Header.decode(encode(x)) == x"]
